@@ -10,7 +10,7 @@
 
     Assumed (partial): [threading.Lock] is a mutex and dict get/set/clear are atomic —
     that is what the [PAcquire] / [PStore] / ... instructions of Model/Cache.v encode. *)
-From PV Require Import Cache CacheProofs.
+From PV Require Import Cache CacheProofs GenC13 GenC13Proofs.
 Open Scope string_scope.
 
 (** mutual exclusion: at most one thread is between Acquire and Release, and it is the
@@ -189,6 +189,48 @@ Theorem C13_sys_path_mutex : forall sp0 progs sched t1 t2,
 Proof. exact asp_mutex. Qed.
 Print Assumptions C13_sys_path_mutex.
 
+(** * Tie B: the model is the CURRENT source
+
+    [gen_get_code] / [gen_clear_code] (Gen/GenC13.v) are the control-flow tables compiled by
+    tools/py2coq_c13.py from the text of Cache.get / Cache.clear at build time; [nstep] runs
+    them; [corr n s] = same log, lock, counter, no_cache flag, and pointwise the same store
+    and threads (program, program point via [dec_get]/[dec_clear], register). *)
+Theorem C13_source_step_is_model : forall t n s,
+  corr n s -> corr (nstep gen_get_code gen_clear_code t n) (step t s).
+Proof. exact gen_step_is_model. Qed.
+Print Assumptions C13_source_step_is_model.
+
+Theorem C13_source_machine_is_model : forall nc progs sched,
+  corr (nrun gen_get_code gen_clear_code sched (ninit nc progs)) (reach nc progs sched).
+Proof. exact gen_machine_is_model. Qed.
+Print Assumptions C13_source_machine_is_model.
+
+Theorem C13_source_log_is_model : forall nc progs sched,
+  nlog (nrun gen_get_code gen_clear_code sched (ninit nc progs)) = log (reach nc progs sched).
+Proof. exact gen_machine_log. Qed.
+Print Assumptions C13_source_log_is_model.
+
+(** the key expression in the current Loader.get_pipeline *)
+Theorem C13_source_pipeline_key_is_model : forall parent name,
+  gen_pipeline_key parent name = pipeline_key parent name.
+Proof. exact gen_pipeline_key_is_model. Qed.
+Print Assumptions C13_source_pipeline_key_is_model.
+
+(** the headline properties restated directly on the machine compiled from the source *)
+Theorem C13_source_single_flight : forall progs sched k,
+  (length (created_for k (since_clear
+     (nlog (nrun gen_get_code gen_clear_code sched (ninit false progs))))) <= 1)%nat.
+Proof. exact gen_single_flight. Qed.
+Print Assumptions C13_source_single_flight.
+
+Theorem C13_source_no_cross_talk : forall nc progs sched t r o,
+  let l := nlog (nrun gen_get_code gen_clear_code sched (ninit nc progs)) in
+  In (ERet t r o) l ->
+  exists t' r', In (ECreated t' r' o) l /\
+                gen_pipeline_key (fst r') (snd r') = gen_pipeline_key (fst r) (snd r).
+Proof. exact gen_no_cross_talk. Qed.
+Print Assumptions C13_source_no_cross_talk.
+
 (** * Non-vacuity: concrete runs (evaluated) *)
 
 Definition ka : req := (None, "a").
@@ -254,4 +296,13 @@ Example C13_sys_path_nonvacuous :
   added st = ["/d1"] /\ alock st = None /\
   rev (alog st) = [AEAcq 0; AEAppend 0 "/d1"; AERel 0; AEAcq 2; AEKnown 0 "/d1"; AERel 2;
                    AEKnown 2 "/d2"; AEAcq 1; AERel 1; AEKnown 1 "/d1"; AEKnown 2 "/nope"].
+Proof. vm_compute. repeat split. Qed.
+
+(** the generated tables are the 13 + 4 program points of the model *)
+Example C13_source_nonvacuous :
+  length gen_get_code = 13%nat /\ length gen_clear_code = 4%nat /\
+  map dec_get (seq 0 13) = [P0; PNcEnter; PNcExit; PReturn; PRaise; PAcquire; PIfContains; PLoad;
+                            PRelease; PReleaseExc; PCreateEnter; PCreateExit; PStore] /\
+  rev (nlog (nrun gen_get_code gen_clear_code race_sched (ninit false race_progs)))
+  = model_log false race_progs race_sched.
 Proof. vm_compute. repeat split. Qed.
